@@ -141,6 +141,41 @@ def sep_safe(db, W, ty, extra=""):
     return False, "type %s is not known to avoid the separators" % ty
 
 
+def _check_one(ctx, chk, db, W, ty):
+    """the agreement rules for one listed type; False when a table is missing"""
+    try:
+        fb = db.method(ty, "from_str", trait="FromStr")
+    except AnchorError:
+        chk.fail("X0", ty + ":reader", "", "no FromStr impl for %s" % ty)
+        return False
+    if ty not in W.by_type:
+        chk.fail("X0", ty + ":writer", "", "no Display writer table for %s" % ty)
+        return False
+    paths, allres = T.reader_paths(ctx, fb)
+    chk.stats.setdefault("reader_paths", {})[ty] = len(paths)
+    if not chk.require(len(paths) >= 1, "X0", ty + ":ok-paths", fb.span, "parser of %s has no Ok path" % ty):
+        return True
+    ents = W.by_type[ty]
+    a = adt_of(db, ty)
+    if ty in ("OrderType", "OrderUpdate", "Transaction", "PriceLevelSnapshot", "PriceLevelStatistics"):
+        check_kv(ctx, chk, db, W, ty, a, ents, paths, fb)
+    elif ty in ("Side", "TimeInForce", "PegReferenceType"):
+        check_unit_enum(ctx, chk, db, W, ty, a, ents, paths, fb)
+    elif ty == "OrderId":
+        check_order_id(ctx, chk, db, W, ents, paths, fb)
+    elif ty == "TransactionList":
+        check_list(ctx, chk, db, W, ty, ents, paths, fb, elem="Transaction")
+    elif ty == "OrderQueue":
+        check_queue(ctx, chk, db, W, ents, fb)
+    elif ty == "PriceLevel":
+        check_level(ctx, chk, db, W, ents, fb)
+    elif ty == "MatchResult":
+        check_match_result(ctx, chk, db, W, a, ents, paths, allres, fb)
+    if ty in ("TransactionList", "OrderQueue", "PriceLevel", "MatchResult"):
+        check_empty_list(ctx, chk, ty, allres, fb)
+    return True
+
+
 def run(ctx, chk):
     for k, v in RULES.items():
         chk.rule(k, v)
@@ -158,37 +193,8 @@ def run(ctx, chk):
     W = T.Writers(db, ctx)
     covered = []
     for ty in LISTED:
-        try:
-            fb = db.method(ty, "from_str", trait="FromStr")
-        except AnchorError:
-            chk.fail("X0", ty + ":reader", "", "no FromStr impl for %s" % ty)
-            continue
-        if ty not in W.by_type:
-            chk.fail("X0", ty + ":writer", "", "no Display writer table for %s" % ty)
-            continue
-        covered.append(ty)
-        paths, allres = T.reader_paths(ctx, fb)
-        chk.stats.setdefault("reader_paths", {})[ty] = len(paths)
-        if not chk.require(len(paths) >= 1, "X0", ty + ":ok-paths", fb.span, "parser of %s has no Ok path" % ty):
-            continue
-        ents = W.by_type[ty]
-        a = adt_of(db, ty)
-        if ty in ("OrderType", "OrderUpdate", "Transaction", "PriceLevelSnapshot", "PriceLevelStatistics"):
-            check_kv(ctx, chk, db, W, ty, a, ents, paths, fb)
-        elif ty in ("Side", "TimeInForce", "PegReferenceType"):
-            check_unit_enum(ctx, chk, db, W, ty, a, ents, paths, fb)
-        elif ty == "OrderId":
-            check_order_id(ctx, chk, db, W, ents, paths, fb)
-        elif ty == "TransactionList":
-            check_list(ctx, chk, db, W, ty, ents, paths, fb, elem="Transaction")
-        elif ty == "OrderQueue":
-            check_queue(ctx, chk, db, W, ents, fb)
-        elif ty == "PriceLevel":
-            check_level(ctx, chk, db, W, ents, fb)
-        elif ty == "MatchResult":
-            check_match_result(ctx, chk, db, W, a, ents, paths, allres, fb)
-        if ty in ("TransactionList", "OrderQueue", "PriceLevel", "MatchResult"):
-            check_empty_list(ctx, chk, ty, allres, fb)
+        if _check_one(ctx, chk, db, W, ty):
+            covered.append(ty)
     chk.stats["types"] = covered
     chk.require(len(covered) == len(LISTED), "X0", "all-types", "", "covered %s" % covered)
     chk.require(chk.stats.get("list_splits", 0) >= 1, "X0", "list-splits-seen", "",
@@ -906,3 +912,7 @@ def check_level_text_pair(ctx, chk, rid):
         return
     check_level(ctx, rc, db, W, W.by_type["PriceLevel"], fb)
     check_empty_list(ctx, rc, "PriceLevel", allres, fb)
+    # the orders inside the level's text form: "the same set of orders field for field" needs the pairs of the order
+    # type and of every type nested in it to agree as well
+    for ty in ("OrderType", "OrderId", "Side", "TimeInForce", "PegReferenceType"):
+        _check_one(ctx, rc, db, W, ty)
